@@ -68,17 +68,23 @@ mkdir -p "$BUILD/gen/awkward" "$BUILD/obj"
 # our own copy from this repo-dir's kernel-specification.yml; -I$BUILD/gen
 # comes first so it shadows <repo-dir>/include/awkward/kernels.h.
 GEN="$BUILD/gen/awkward/kernels.h"
+GENSTAMP="$BUILD/gen/kernels.h.stamp"   # holds the repo dir it was generated from
+SPEC="$REPO/kernel-specification.yml"
 generated=no
-if [ -f "$REPO/kernel-specification.yml" ]; then
+if [ -f "$GEN" ] && [ -f "$GENSTAMP" ] && [ "$(cat "$GENSTAMP")" = "$REPO" ] \
+   && [ "$GENSTAMP" -nt "$SPEC" ] && [ "$GENSTAMP" -nt "$HARNESS/gen_kernels_h.py" ]; then
+  generated=uptodate   # same repo dir, specification not touched since: skip the ~1 s YAML load
+elif [ -f "$SPEC" ]; then
   for py in "${PYTHON:-}" /venv/bin/python python3 python; do
     [ -n "$py" ] || continue
     command -v "$py" >/dev/null 2>&1 || continue
-    if "$py" "$HARNESS/gen_kernels_h.py" "$REPO/kernel-specification.yml" "$GEN"; then
+    if "$py" "$HARNESS/gen_kernels_h.py" "$SPEC" "$GEN"; then
+      printf '%s\n' "$REPO" > "$GENSTAMP"
       generated=yes; break
     fi
   done
 fi
-if [ "$generated" != yes ]; then
+if [ "$generated" = no ]; then
   # last resort: copy an existing header
   for cand in "$REPO/include/awkward/kernels.h" /repo/include/awkward/kernels.h; do
     if [ -f "$cand" ]; then
